@@ -460,6 +460,7 @@ _ADDED10 = {
     "C14": " (PL2) see C01.",
     "C15": " (V3, V4) see C04.",
     "C18": " (I4) see C11.",
+    "C20": " (T12) in generateImpl every return in front of the last back end's Generate call is the return of an error.",
     "C16": " (RB1) see C05.",
     "C17": " (RB1) see C05.",
 }
